@@ -172,6 +172,11 @@ static void check_doc(Ctx &ctx, const std::string &doc, uint64_t salt)
 		POut s = parse_fresh(x.text, JSON_TOKENER_STRICT, 32, true);
 		if (s.err == json_tokener_success)
 			ctx.fail(std::string("strict-accepts-") + KNAME[x.k], "strict mode accepted " + where + " -> " + s.show_());
+		// strict stays strict when combined with the UTF-8 validation flag (documents here are valid UTF-8 unless the
+		// injected bytes are not: then rejection is right anyway)
+		POut su = parse_fresh(x.text, JSON_TOKENER_STRICT | JSON_TOKENER_VALIDATE_UTF8, 32, true);
+		if (su.err == json_tokener_success)
+			ctx.fail(std::string("strict-accepts-") + KNAME[x.k], "strict|validate-utf8 mode accepted " + where + " -> " + su.show_());
 		POut sa = parse_fresh(x.text, JSON_TOKENER_STRICT | JSON_TOKENER_ALLOW_TRAILING_CHARS, 32, true);
 		if (x.k == K_TRAILING_BYTES)
 		{
